@@ -1638,6 +1638,7 @@ class Message(ABC):
                         output[cased_name] = value
                 elif (
                     value._serialized_on_wire
+                    or bool(value)
                     or include_default_values
                     or meta.optional
                     or self._include_default_value_for_oneof(
@@ -1948,6 +1949,7 @@ class Message(ABC):
                         output[cased_name] = None
                 elif (
                     value._serialized_on_wire
+                    or bool(value)
                     or include_default_values
                     or self._include_default_value_for_oneof(
                         field_name=field_name, meta=meta
